@@ -169,6 +169,40 @@ def check_tree(U, d, rec: Rec, cfg):
             rec.violation("C02|hash", {"tree": d, "origins_a": list(combo)}, "hash(node) changed during the node's lifetime")
 
 
+def check_shared_children(U, d, rec: Rec):
+    """Operands that SHARE child objects: b is a with the subtree at one position rebuilt (its root carrying another origin,
+    or the same one) and only the ancestors of that position re-created with dataclasses.replace - every other child, at
+    every level, is the very same object in both trees.  a == b iff the origins agree."""
+    import dataclasses
+
+    zoo.reset_registry()
+    pos = U.positions(d)
+    if len(pos) < 3:
+        return
+    desc_at = dict(pos)
+    for base in ("-", "a"):
+        ia = {}
+        a = U.build(d, origin=lambda p, dd: O[base], index=ia)
+        for p, _ in pos[1:]:
+            for letter in ("b", base):
+                rec.count("states")
+                new = U.build(desc_at[p], origin=lambda q, dd: O[letter] if q == () else O[base])
+                cur, path = new, p
+                while path:
+                    parent = ia[path[:-1]]
+                    fname, i = path[-1]
+                    old = getattr(parent, fname)
+                    val = cur if i is None or not isinstance(old, tuple) else old[:i] + (cur,) + old[i + 1:]
+                    cur = dataclasses.replace(parent, **{fname: val})
+                    path = path[:-1]
+                shared = sum(1 for q, n in ia.items() if q and any(n is x for x in (i.node for i in cur.dfs())))
+                if shared:
+                    rec.count("nontrivial")
+                compare(rec, a, cur, letter == base, {"tree": d, "shared_children": True, "rebuilt_at": [list(x) for x in p], "origin_there": letter, "origin_elsewhere": base},
+                        "shared-children")
+                del new, cur
+
+
 def check_pairs(U, trees, rec: Rec, cfg):
     """All ordered pairs of different small trees, same origins everywhere: == iff structural keys equal (never, here)."""
     zoo.reset_registry()
@@ -290,6 +324,7 @@ def run_shard(cfg):
             if mine:
                 rec.rank = idx
                 check_tree(U, d, rec, cfg)
+                check_shared_children(U, d, rec)
     small = [d for n in range(1, cfg["npair"] + 1) for d in U.trees(n)]
     check_pairs(U, small, rec, cfg)
     check_values(rec, cfg)
@@ -304,7 +339,9 @@ def replay(case, cfg):
     U = zoo.universe(UNIV)
     cfg = dict(cfg)
     cfg.setdefault("npair", 3)
-    if case.get("deep_chain"):
+    if case.get("shared_children"):
+        check_shared_children(U, case["tree"], rec)
+    elif case.get("deep_chain"):
         check_deep(rec)
     elif case.get("lookalike"):
         check_values(rec, dict(cfg, k=0, of=1))
